@@ -219,12 +219,11 @@ PROPS['C18'] = {
 PROPS['C20'] = {
     'level': 'exploration',
     'vx': [{'unit': 'agent'}],
-    'kx': ['k20_request_poll_shift'],
     'bx': ['c20'],
     'rule': 'closed-world Verus verification of agent.rs functions (a call to an unspecified function is an unsupported construct; ambient sources on the deny-list are reported as C20 violations) + BX shifted replay.',
     'proved': ['every extracted agent function is verified against contracts that mention only its arguments and the agent state: results are functions of (state, arguments); time enters only through `now`',
-               'poll contract is shift-invariant: all instants appear only as inst_ns(now) - relative comparisons and last_send + schedule'],
-    'bounded': ['whole-agent shifted replay, second instance, other thread, unrelated agents alongside: BX', 'StunRequestState::poll 2-safety under real Timespec arithmetic: KX thorough'],
+               'lemma_poll_shift: the verdict function that StunRequestState::poll is proved to implement commutes with shifting every instant by a constant'],
+    'bounded': ['whole-agent shifted replay, second instance, other thread, unrelated agents alongside: BX'],
     'trusted': _AGENT_TRUST + _KX_TRUST,
 }
 
